@@ -26,7 +26,7 @@ EXPLANATION = "spectral form and scalar positivity/boundedness facts proved for 
 
 def cases(tier):
     cs = ["diag_eigen/eigen", "diag_eigen/diagonal-any-sign", "lemma/power", "eigdecomp"]
-    cs += [f"dispatch/{c}/{s}/d0" for c in ("eigen", "eigen-stab") for s in ("vec", "rect", "cube", "scalar0", "scalar1", "scalar11", "square")]
+    cs += [f"dispatch/{c}/{s}/{d}" for c in ("eigen", "eigen-stab") for s in ("vec", "rect", "cube", "scalar0", "scalar1", "scalar11", "square") for d in ("d0", "d1")]
     return cs
 
 
@@ -91,14 +91,17 @@ def native_shapes():
     import torch
     from fractions import Fraction
     import matrix_functions as M
+    from matrix_functions_types import EigenConfig
     for shp in ((2,), (3, 2), (2, 2, 2), (1, 2), (4, 1)):
-        try:
-            M.matrix_inverse_root(torch.ones(shp), Fraction(2), epsilon=1e-3)
-            return f"shape {shp} accepted"
-        except ValueError:
-            pass
-        except Exception as e:
-            return f"shape {shp}: {type(e).__name__} instead of ValueError"
+        for diag in (False, True):
+            for cfg in (EigenConfig(), EigenConfig(enhance_stability=True)):
+                try:
+                    M.matrix_inverse_root(torch.ones(shp), Fraction(2), root_inv_config=cfg, epsilon=1e-3, is_diagonal=diag)
+                    return f"shape {shp} accepted (is_diagonal={diag})"
+                except ValueError:
+                    pass
+                except Exception as e:
+                    return f"shape {shp} (is_diagonal={diag}): {type(e).__name__} instead of ValueError"
     return None
 
 
